@@ -126,6 +126,7 @@ class Batch:
         self.results = {}      # index -> (hash, ph, nt)
         self.viol = {}         # signature -> list of (index, violation dict)
         self.samples = []
+        self.schedules, self.switches = set(), 0
         self.faults, self.probes = {}, {}
         self.steps = 0
         self.crashes = []      # (index, out, err, kind)
@@ -173,6 +174,9 @@ class Batch:
                     n_end += 1
                     with self.lock:
                         self.results[idx] = (r["hash"], r["ph"], r["nt"])
+                        if "sh" in r:
+                            self.schedules.add(r["sh"])
+                            self.switches += r.get("sw", 0)
                         for v in r.get("viol", []):
                             self.viol.setdefault(v["sig"], []).append((idx, v))
                         if "sample" in r:
